@@ -71,9 +71,10 @@ def library_units(repo=None):
     return units
 
 
-def flags_for(rel, config, gen_inc, repo=None):
+def flags_for(rel, config, gen_inc, repo=None, pre_inc=None):
     repo = repo or REPO
     fl = list(BASE_DEFS) + CONFIGS[config]
+    fl += ["-I" + d for d in (pre_inc or [])]
     fl += ["-I" + os.path.join(repo, "source/external/libcbor"), "-I" + os.path.join(repo, "include"), "-I" + gen_inc, "-std=gnu99"]
     fl += PER_FILE.get(rel, [])
     return fl
@@ -106,7 +107,7 @@ class Extraction:
         r = subprocess.run(cmd, stdout=subprocess.PIPE, stderr=subprocess.PIPE, text=True)
         return (src, out, r.returncode, r.stderr[-2000:])
 
-    def extract(self, rels, config="ship", extra_flags=None, main_only=True):
+    def extract(self, rels, config="ship", extra_flags=None, main_only=True, pre_inc=None):
         """rels: paths relative to the repo (or absolute synthetic sources). Returns {rel: path_to_json}."""
         jobs = []
         outs = {}
@@ -118,7 +119,7 @@ class Extraction:
                 sys.exit(2)
             out = os.path.join(self.dir, config + "__" + rel.replace("/", "_") + (".main" if main_only else ".all") + ".json")
             outs[rel] = out
-            fl = flags_for(rel, config, self.gen_inc, self.repo) + (extra_flags or [])
+            fl = flags_for(rel, config, self.gen_inc, self.repo, pre_inc) + (extra_flags or [])
             key = (src, config, tuple(fl), main_only)
             if key in cache:
                 outs[rel] = cache[key]
@@ -133,20 +134,21 @@ class Extraction:
                 self.units_done.append(src)
         return outs
 
-    def headers_unit(self, config="ship", extra_flags=None):
+    def headers_unit(self, config="ship", extra_flags=None, pre_inc=None):
         """A synthetic unit that includes every library header, so inline (.inl) functions are emitted once."""
-        src = os.path.join(self.dir, "all_headers_%s.c" % config)
+        tag = ("_" + str(abs(hash(tuple(pre_inc))) % 100000)) if pre_inc else ""
+        src = os.path.join(self.dir, "all_headers_%s%s.c" % (config, tag))
         inc = os.path.join(self.repo, "include/aws/common")
         skip = {"stdbool.h", "stdint.h", "config.h.in"}
         names = [f for f in sorted(os.listdir(inc)) if f.endswith(".h") and f not in skip]
-        priv = [f for f in sorted(os.listdir(os.path.join(inc, "private"))) if f.endswith(".h")]
+        priv = [f for f in sorted(os.listdir(os.path.join(inc, "private"))) if f.endswith(".h") or f.endswith(".inl")]
         with open(src, "w") as f:
             for n in names:
                 f.write("#include <aws/common/%s>\n" % n)
             for n in priv:
                 f.write("#include <aws/common/private/%s>\n" % n)
-        out = os.path.join(self.dir, config + "__all_headers.json")
-        fl = flags_for("", config, self.gen_inc, self.repo) + (extra_flags or [])
+        out = os.path.join(self.dir, config + "__all_headers%s.json" % tag)
+        fl = flags_for("", config, self.gen_inc, self.repo, pre_inc) + (extra_flags or [])
         s, o, rc, err = self._run((src, out, fl, False))
         if rc != 0 or not os.path.isfile(out):
             print("ANALYSIS-BROKEN: extractor failed on the header unit (rc=%s)\n%s" % (rc, err))
